@@ -21,17 +21,25 @@ import (
 )
 
 type cfg struct {
-	Client []string // S:id:query | U:id | M:id:v | MF:id | E | X | J | C
+	Client []string // S:id:query | U:id | M:id:v | MF:id | MP:id | E | X | J | C
 	Env    []string // change names applied by the environment thread
 	Pre    []string // changes applied before the connection starts
 	Max    int      // max subscriptions (0 = default)
 	Exec   string   // "fifo" (sequential executor) | "go" (goroutine per unit)
 	Cancel bool     // a thread cancels the connection context
 	Spawn  bool     // alwaysSpawnGoroutine
+	Deep   int      // deviation bound for this item in every tier (0 = the tier's bound)
 }
 
 func (c cfg) name() string {
-	return fmt.Sprintf("client=%s env=%s pre=%s max=%d exec=%s cancel=%t spawn=%t", strings.Join(c.Client, ","), strings.Join(c.Env, ","), strings.Join(c.Pre, ","), c.Max, c.Exec, c.Cancel, c.Spawn)
+	return fmt.Sprintf("client=%s env=%s pre=%s max=%d exec=%s cancel=%t spawn=%t", strings.Join(c.Client, ","), strings.Join(c.Env, ","), strings.Join(c.Pre, ","), c.Max, c.Exec, c.Cancel, c.Spawn) + c.deep()
+}
+
+func (c cfg) deep() string {
+	if c.Deep == 0 {
+		return ""
+	}
+	return fmt.Sprintf(" deep=%d", c.Deep)
 }
 
 func parse(s string) cfg {
@@ -59,6 +67,8 @@ func parse(s string) cfg {
 			fmt.Sscan(kv[1], &c.Cancel)
 		case "spawn":
 			fmt.Sscan(kv[1], &c.Spawn)
+		case "deep":
+			fmt.Sscan(kv[1], &c.Deep)
 		}
 	}
 	return c
@@ -79,6 +89,9 @@ func frame(op string) (raw []byte, ev event) {
 		ev = event{Kind: "send", Type: "mutate", ID: p[1]}
 	case "MF":
 		env = map[string]interface{}{"id": p[1], "type": "mutate", "message": map[string]interface{}{"query": "mutation { fail }"}}
+		ev = event{Kind: "send", Type: "mutate", ID: p[1]}
+	case "MP":
+		env = map[string]interface{}{"id": p[1], "type": "mutate", "message": map[string]interface{}{"query": "mutation { slowPanic }"}}
 		ev = event{Kind: "send", Type: "mutate", ID: p[1]}
 	case "E":
 		env = map[string]interface{}{"id": "e", "type": "echo"}
@@ -113,7 +126,11 @@ func norm(v interface{}) interface{} {
 }
 
 func item(c cfg, oracle string) *explore.Item {
-	return &explore.Item{Name: c.name(), Bound: -1, MaxSteps: 30000, MaxClock: 200, Body: func(x *explore.Exec) {
+	bound := -1
+	if c.Deep > 0 {
+		bound = c.Deep
+	}
+	return &explore.Item{Name: c.name(), Bound: bound, MaxSteps: 30000, MaxClock: 200, Body: func(x *explore.Exec) {
 		reactive.WriteThenReadDelay = 0
 		w := &world{x: x, clean: map[*reactive.Resource]int{}, in: vchan.Make[[]byte](64), failOnce: map[string]bool{}}
 		st0 := initial()
@@ -316,7 +333,7 @@ func item(c cfg, oracle string) *explore.Item {
 		for id, n := range failures {
 			sends := 0
 			for _, op := range c.Client {
-				if strings.HasPrefix(op, "S:"+id+":") || strings.HasPrefix(op, "M:"+id+":") || strings.HasPrefix(op, "MF:"+id) {
+				if strings.HasPrefix(op, "S:"+id+":") || strings.HasPrefix(op, "M:"+id+":") || strings.HasPrefix(op, "MF:"+id) || strings.HasPrefix(op, "MP:"+id) {
 					sends++
 				}
 			}
@@ -425,6 +442,8 @@ func c02configs(tier string) []cfg {
 		cfg{Client: []string{"S:a:flag", "S:a:items"}, Env: []string{"flag++"}},
 		cfg{Client: []string{"S:a:flag", "E", "X"}, Env: []string{"flag++"}},
 		cfg{Client: []string{"S:a:flag"}, Env: []string{"flag++"}, Spawn: true},
+		cfg{Client: []string{"S:a:slow", "U:a", "S:a:slow"}, Env: []string{"flag++"}},
+		cfg{Client: []string{"S:a:slow"}, Env: []string{"flag++", "flag++"}},
 	)
 	if tier == "thorough" {
 		for _, q := range qs {
@@ -461,6 +480,11 @@ func c17configs(tier string) []cfg {
 		{Client: []string{"S:a:flag", "U:b"}},
 		{Client: []string{"S:a:flag"}, Exec: "go", Env: []string{"flag++"}},
 		{Client: []string{"S:a:flag", "C"}, Spawn: true, Env: []string{"flag++"}},
+		// unsubscribe / re-subscribe while a run that observes its cancellation is in flight
+		{Client: []string{"S:a:slow", "U:a", "S:a:flag"}, Env: []string{"flag++"}, Deep: 3},
+		{Client: []string{"S:a:slow", "U:a", "S:a:slow"}, Env: []string{"flag++"}, Deep: 3},
+		{Client: []string{"S:a:slow", "S:b:flag", "U:a"}, Env: []string{"flag++"}, Exec: "go"},
+		{Client: []string{"MP:a", "U:a", "S:a:flag"}, Env: []string{"flag++"}, Deep: 3},
 		// colliding ids across message types
 		{Client: []string{"S:a:flag", "M:a:3"}},
 		{Client: []string{"M:a:3", "S:a:flag"}},
@@ -497,6 +521,10 @@ func c15configs(tier string) []cfg {
 		{Client: []string{"S:a:boom", "S:b:flag"}, Env: []string{"boom-panic", "boom-off"}},
 		{Client: []string{"S:a:boom", "M:m:4", "S:b:flag"}, Pre: []string{"boom-panic"}},
 		{Client: []string{"S:a:boom", "E", "S:b:maybe"}, Pre: []string{"boom-panic"}, Env: []string{"maybe-toggle"}},
+		// a panicking mutation that is unsubscribed while running, its id re-used by a live query straight away
+		{Client: []string{"MP:a", "U:a", "S:a:flag"}, Env: []string{"flag++"}, Deep: 3},
+		{Client: []string{"MP:a", "S:b:flag", "U:a"}, Env: []string{"flag++"}},
+		{Client: []string{"S:b:flag", "MP:a", "S:a:items"}, Env: []string{"edit"}},
 	}
 }
 
